@@ -201,7 +201,9 @@ impl Sandbox {
     /// a process-wide lock), with six times the budget.  Only the confirmation's outcome is reported.
     pub fn run(&mut self, cfg: &Config, step: &Step) -> Outcome {
         let mut out = self.spawn_once(cfg, step, cfg.cpu_limit_s);
-        if matches!(out.status.signal(), Some(libc::SIGXCPU) | Some(libc::SIGKILL)) {
+        // (once three hangs have been confirmed the tree is known to hang: later kills are believed)
+        static CONFIRMED_HANGS: std::sync::atomic::AtomicUsize = std::sync::atomic::AtomicUsize::new(0);
+        if matches!(out.status.signal(), Some(libc::SIGXCPU) | Some(libc::SIGKILL)) && CONFIRMED_HANGS.load(std::sync::atomic::Ordering::Relaxed) < 3 {
             static CONFIRM: std::sync::Mutex<()> = std::sync::Mutex::new(());
             let _g = CONFIRM.lock().unwrap_or_else(|e| e.into_inner());
             // remove partial outputs of the killed run (files that were not there before)
@@ -223,6 +225,9 @@ impl Sandbox {
             }
             if restorable {
                 out = self.spawn_once(cfg, step, cfg.cpu_limit_s * 6);
+                if matches!(out.status.signal(), Some(libc::SIGXCPU) | Some(libc::SIGKILL)) {
+                    CONFIRMED_HANGS.fetch_add(1, std::sync::atomic::Ordering::Relaxed);
+                }
             }
         }
         let mut o = Outcome { exit: out.status.code(), signal: out.status.signal(), stdout: out.stdout, stderr: out.stderr, ..Default::default() };
